@@ -216,6 +216,14 @@ pub fn run(ctx: &Ctx) -> i32 {
         s.push('}');
         check_text("floods", i, &s, st);
     }));
+    // every token-kind sequence of length <= 2 in every syntactic slot (the error points of C03's exhaustive stage)
+    let frames: Vec<usize> = (0..crate::mutate::FRAMES.len()).collect();
+    let n_slots = syncases::slot_space(&frames, 2);
+    stats.merge(par_cases(ctx, "slots2", n_slots, Duration::from_secs(ctx.tier.pick(60, 300)), |i, rng, st| {
+        if let Some((_, text)) = syncases::slot_case(i, &frames, 2, rng) {
+            check_text("slots2", i, &text, st);
+        }
+    }));
     let n2 = ctx.tier.pick(15_000u64, 300_000);
     stats.merge(par_cases(ctx, "mutations", n2, Duration::from_secs(ctx.tier.pick(40, 400)), |i, rng, st| {
         let (_, text) = syncases::mutation_case(rng);
